@@ -397,8 +397,8 @@ func drawPool(t *rapid.T) poolCase {
 		switch rapid.IntRange(0, 3).Draw(t, "name_shape") {
 		case 0:
 			s = tricky.Draw(t, "tricky")
-		case 1:
-			s = drawValidName(t, repoAlphabet, "pool").S
+		case 1: // short names over the whole alphabet (long ones are covered by TestPropArchivePath)
+			s = drawNameOf(t, repoAlphabet, rapid.IntRange(1, 6).Draw(t, "pool_len"), "pool").S
 		default:
 			s = small.Draw(t, "small")
 		}
